@@ -146,17 +146,21 @@ CHECKS["C18"] = dict(
     rule=("C18Concurrent: 2-64 goroutines x 1-6 OpenPush/OpenPull calls each on one real manager; recorded (call, return, id) history must have unique ids, strictly "
           "increasing per caller, and be linearizable against the sequential model 'strictly increasing counter' (decided directly on the full history - the order is forced "
           "by the ids - and by porcupine on a random sub-history of <= 12 operations). C18Lifetimes (real clock, outside a bubble): 2-5 successive managers on one "
-          "datastore each issue 1-500 ids; every id must exceed all ids of earlier managers. C18Duplicate: a duplicate new request (same initiator and transfer id, validator "
+          "datastore each issue 1-500 ids; every id must exceed all ids of earlier managers. C18LifetimesVirtual (bubble): the same on the virtual clock, where the only wall clock "
+          "that separates two lifetimes is what the harness lets pass - 1 microsecond per id the earlier manager issued plus a PRNG extra - so the verdict does not depend on how "
+          "fast this machine restarts a manager. C18Duplicate: a duplicate new request (same initiator and transfer id, validator "
           "accepting) arrives at a PRNG point of the original channel's life (just accepted, transferring, paused, terminated, after reopening the datastore) or n identical "
           "requests arrive concurrently: never accepted (exactly one accepted in the concurrent case), existing channel's accessors, stored bytes and event stream unchanged. "
           "distinct = observed return order of the openers / (point of life, direction, status)."),
     parts=[
         dict(test="TestC18Concurrent", quick=96, thorough=6000, per_shard=12),
         dict(test="TestC18Lifetimes", quick=16, thorough=800, per_shard=4, gomaxprocs=16),
+        dict(test="TestC18LifetimesVirtual", quick=32, thorough=2400, per_shard=8),
         dict(test="TestC18Duplicate", quick=96, thorough=6000, per_shard=24),
     ],
-    floors=dict(any={"TestC18Concurrent.opens": 3000, "TestC18Lifetimes.lifetimes": 30, "TestC18Duplicate.duplicates": 60, "TestC18Duplicate.concurrent_duplicates": 10}),
-    assumptions=["the wall clock does not go backwards between manager lifetimes (premise stated in the property)"],
+    floors=dict(any={"TestC18Concurrent.opens": 3000, "TestC18Lifetimes.lifetimes": 30, "TestC18LifetimesVirtual.virtual_lifetimes": 60, "TestC18Duplicate.duplicates": 60, "TestC18Duplicate.concurrent_duplicates": 10}),
+    assumptions=["the wall clock does not go backwards between manager lifetimes (premise stated in the property)",
+                 "issuing a transfer id costs at least 1 microsecond of wall clock (virtual-clock variant: that much clock passes between lifetimes)"],
 )
 
 CHECKS["C04"] = dict(
